@@ -1,5 +1,6 @@
 /* C12: GF(2^8) scalar arithmetic and table builders of erasure_code/ec_base.c against the
  * polynomial specification, for ALL operands (exhaustive by solver). */
+#include <string.h>
 #include "verif.h"
 #include "gf256.h"
 #include "erasure_code.h"
@@ -11,6 +12,8 @@ struct inputs {
         uint8_t k, rows;
         uint8_t coef[16];
         uint8_t r, j;
+        uint8_t stale[2]; /* previous contents of the observed table entry / of an arbitrary other byte of the buffer */
+        uint16_t stale_at;
 };
 DECLARE_INPUTS
 
@@ -71,9 +74,16 @@ harness(void)
         /* ec_init_tables_base layout: rows x k coefficient matrix -> 32-byte tables in (row,k) order */
         uint8_t g[16 * 32 + 1];
         int k = KK, rows = ROWS;
+        /* what the caller's table buffer held before (reused buffer, malloc garbage) is arbitrary and must not matter:
+         * the observed entry and one more byte anywhere get explicit symbolic previous contents (the rest: zero) */
+        memset(g, 0, sizeof(g));
+        VASSUME(I.r < rows && I.j < k && I.i < 32);
+        g[(I.r * k + I.j) * 32 + I.i] = I.stale[0];
+        VASSUME(I.stale_at < k * rows * 32);
+        if (I.stale_at != (I.r * k + I.j) * 32 + I.i)
+                g[I.stale_at] = I.stale[1];
         g[k * rows * 32] = 0xA5; /* canary */
         ec_init_tables_base(k, rows, I.coef, g);
-        VASSUME(I.r < rows && I.j < k && I.i < 32);
         uint8_t c = I.coef[I.r * k + I.j];
         uint8_t expect = I.i < 16 ? spec_gf_mul(c, I.i) : spec_gf_mul(c, (uint8_t) ((I.i - 16) << 4));
         VASSERT(g[(I.r * k + I.j) * 32 + I.i] == expect, "ec_init_tables_base entry");
@@ -81,9 +91,11 @@ harness(void)
 #elif defined(H_GFNI_INIT)
         uint64_t g64[17];
         int k = KK, rows = ROWS;
+        VASSUME(I.r < rows && I.j < k);
+        memset(g64, 0, sizeof(g64));
+        g64[I.r * k + I.j] = 0x0101010101010101ull * I.stale[0] ^ ((uint64_t) I.stale[1] << 24); /* arbitrary previous contents */
         g64[k * rows] = 0xA5A5A5A5A5A5A5A5ull;
         ec_init_tables_gfni(k, rows, I.coef, (unsigned char *) g64);
-        VASSUME(I.r < rows && I.j < k);
         uint8_t c = I.coef[I.r * k + I.j];
         VASSERT(spec_gf2p8affine_byte(g64[I.r * k + I.j], I.s) == spec_gf_mul(c, I.s), "gfni table entry acts as *c");
         VASSERT(g64[k * rows] == 0xA5A5A5A5A5A5A5A5ull, "nothing written past k*rows*8");
